@@ -939,6 +939,10 @@ class ReadParquetPyarrowFS(ReadParquet):
         meta = clear_known_categories(
             meta, dtype_backend=self.kwargs.get("dtype_backend")
         )
+        # arrow hands out the index as a read-only view of its own memory.  The
+        # token of such an array changes once it went through pickle, and with it
+        # the name of every expression that carries a meta derived from this one
+        meta.index = meta.index.copy(deep=True)
         # name of the index column in the files; dask writes an unnamed index as
         # NONE_LABEL and gives the name ``None`` back to the user
         dataset_info["index_name"] = meta.index.name
